@@ -453,7 +453,7 @@ func runConcScenario(c07, c08 *verifrt.Result, base string, s *concScenario, rnd
 						break
 					}
 				}
-			case isReport && e.Op == "OpenFile" && e.Err != "":
+			case isReport && (e.Op == "OpenFile" || e.Op == "Link") && e.Err != "":
 				c07.Hit("exclusive-create-lost")
 				if _, ok := reportSince[wk]; !ok {
 					reportSince[wk] = e.Seq
